@@ -9,6 +9,7 @@ package main
 // runtime's fatal "concurrent map read and map write".
 
 import (
+	"os"
 	"fmt"
 	"go/types"
 	"sort"
@@ -117,6 +118,11 @@ func ruleGuardedMapReads(r *Run) {
 					st.guards[g]++
 				}
 			}
+		}
+	}
+	if os.Getenv("DVIDLINT_DEBUG_GUARDS") != "" {
+		for mf, st := range stats {
+			fmt.Fprintf(os.Stderr, "GUARDSTAT %s.%s.%s sites=%d guards=%v\n", mf.pkg, mf.typ, mf.field, st.sites, st.guards)
 		}
 	}
 	guard := map[mapField]string{}
